@@ -21,6 +21,9 @@ import (
 // beyond 2^20 elements: reported as violation kind "alloc".
 type allocPanic struct{ msg string }
 
+// notHandled is returned by an intrinsic that declines (the function body is interpreted instead).
+type notHandled struct{}
+
 type continuation int
 
 const (
@@ -433,7 +436,9 @@ func callSSA(m *Machine, caller *frame, callpos token.Pos, fn *ssa.Function, arg
 	info := m.info(fn)
 	fr := &frame{m: m, caller: caller, fn: fn, info: info}
 	if info.intr != nil {
-		return info.intr(m, fr, args)
+		if r := info.intr(m, fr, args); r != (notHandled{}) {
+			return r
+		}
 	}
 	if fn.Blocks == nil {
 		panic("symgo: no code and no intrinsic for function: " + fn.String())
@@ -514,6 +519,7 @@ func runFrame(fr *frame) {
 
 	m := fr.m
 	for {
+		m.curFrame = fr
 		nonPhis := executePhis(fr)
 		for _, instr := range nonPhis {
 			m.steps++
